@@ -171,7 +171,7 @@ class Speaker:
                 s.send(R.keepalive())
         elif mtype == R.KEEPALIVE:
             s.ka_rx.append(when)
-            if s.state == 'open-rx' and s.sent_open:
+            if s.state == 'open-rx' and s.sent_open and s.sent_ka:
                 s.state = 'established'
                 s.established_at = self.world.loop.mono
                 self.world.rec('spk-established', spk=self.name, sess=s.index)
